@@ -4,6 +4,8 @@ import MJ.Model.ValueSer
 import MJ.Model.JsonSer
 import MJ.Model.SerdeValue
 import MJ.Model.SerdeArg
+import MJ.Model.SerdeDispatch
+import MJ.Model.JsonFloatRT
 /-! Line driver for C16.
 
   rt <shape> ; <data>             → `<value canon>\t<ok data canon|err|?>`
@@ -440,6 +442,37 @@ def handleVv (btree : Bool) (mode : String) (desc : String) : String :=
     | _ => "bad-case"
   else "-"
 
+/-! ### every `Deserializer` method on every representation (stream `rk`) -/
+
+def iterableKinds : List String := ["cx", "cl", "cn", "os", "ie", "if", "ic", "iu", "oi"]
+
+def handleRk (btree : Bool) (body : String) : String :=
+  match toks body with
+  | m :: rh :: desc =>
+    match MJ.SerdeDispatch.reprOfName ((rh.splitOn "/").headD ""), pLV desc with
+    | some r, some (lv, []) =>
+      let v := toV false (normLV btree lv)
+      -- the payload of a single-entry map may be an iterable object (`V` has sequences only)
+      let pk : Option MJ.SerdeDispatch.SKind := match desc with
+        | _ :: "1" :: _ :: p :: _ =>
+          if p.startsWith "Z" && iterableKinds.contains (p.drop 1).toString then some .iterable else none
+        | _ => none
+      (MJ.SerdeDispatch.probe m r.skind v pk).getD "err"
+    | _, _ => "bad-case"
+  | _ => "bad-case"
+
+/-! ### the token of a finite double (stream `ff`): text, did the digit search stop at a candidate, do the
+digits lie in the rounding interval (evaluated, independently of the proof) -/
+
+def handleFf (body : String) : String :=
+  let neg := body.startsWith "-"
+  match ((if neg then (body.drop 1).toString else body).trimAscii.toString).toNat? with
+  | some bits =>
+    let dk := shortestDec bits
+    let t := f64Text (bits + (if neg then 9223372036854775808 else 0))
+    s!"{hexOfStr t}\tfound:{if f64Found bits then "T" else "F"}\tin:{if decide (ReadsBack bits dk.1 dk.2) then "T" else "F"}"
+  | none => "bad-case"
+
 /-! ### the post-processing of `tojson` on the exhaustive family of the harness -/
 
 def fnvStep (h : UInt64) (b : UInt64) : UInt64 := (h ^^^ b) * 1099511628211
@@ -491,6 +524,8 @@ def handle (btree : Bool) (line : String) : String :=
     | mode :: rest => handleVv btree mode (" ".intercalate rest)
     | [] => "bad-case"
   else if case.startsWith "pp " then handlePp (case.drop 3).toString
+  else if case.startsWith "rk " then handleRk btree (case.drop 3).toString
+  else if case.startsWith "ff " then handleFf (case.drop 3).toString
   else "-"
 
 partial def loop (btree : Bool) (h : IO.FS.Stream) (out : IO.FS.Stream) : IO Unit := do
